@@ -31,6 +31,17 @@ def stepC10 : List String → String
       | some sc => fmtVerdict (check hashPair10 ⟨cb, pb, pi, pr, ab, ai, sc⟩ hash chain)
       | none => "bad-op"
     | _, _, _, _, _, _, _, _ => "bad-op"
+  | ["checkw", hash, chain, cb, pb, pi, pr, ab, ai, script, _tx] =>
+    -- through Serialize/Deserialize: `uint32(index)` on the way out, `int(uint32)` on the way in
+    match hexBytes? hash, int? chain, hexBytes? cb, parseHashes10 pb, int? pi, hexBytes? pr,
+          parseHashes10 ab, int? ai with
+    | some hash, some chain, some cb, some pb, some pi, some pr, some ab, some ai =>
+      let sc : Option (Option (List UInt8)) :=
+        if script == "none" then some none else (hexBytes? script).map some
+      match sc with
+      | some sc => fmtVerdict (check hashPair10 ⟨cb, pb, pi % 2 ^ 32, pr, ab, ai % 2 ^ 32, sc⟩ hash chain)
+      | none => "bad-op"
+    | _, _, _, _, _, _, _, _ => "bad-op"
   | ["branch", h, br, idx] =>
     match hexBytes? h, parseHashes10 br, int? idx with
     | some h, some br, some idx => toHex (branchRoot hashPair10 zeroHash h br idx)
